@@ -31,9 +31,9 @@ def main(argv):
     finally:
         tlc.cleanup(d)
     for v in out["viol"]:
-        if v["bad"].startswith("BAD:C06-"):
-            continue  # the control-variable clauses are C06's verdict
-        rep.violation(v["bad"], {"id": v["id"], "stage": STAGE_ORDER[v["sid"] - 1], "mode": v["mode"]}, detail={"decision_path_blocks": v["path"], "env": v["env"]})
+        # a walk that cannot be steered (control variable unset / out of range / stale) does not reach the original successor either:
+        # it is C06's clause AND a lost path
+        rep.violation(v["bad"].replace("BAD:C06-", "BAD:cannot-steer/"), {"id": v["id"], "stage": STAGE_ORDER[v["sid"] - 1], "mode": v["mode"]}, detail={"decision_path_blocks": v["path"], "env": v["env"]})
     summ = [s for r in res for s in r["summary"]]
     ok = [s for s in summ if s.get("build") == "ok"]
     nt = [s for s in ok if s["nbranching"] > 0]
